@@ -287,14 +287,14 @@ Qed.
 
 Lemma eligible_usable n : eligible n = true <-> usable n.
 Proof.
-  unfold eligible, usable. destruct n as [p r st del]; simpl. destruct r, st, del; simpl; split; intros H;
-    try discriminate; try (destruct H as (A & B & C); discriminate); auto.
+  unfold eligible, usable. destruct n as [p r st del mg]; simpl. destruct r, st, del, mg; simpl; split; intros H;
+    try discriminate; try (destruct H as (A & B & C & D); discriminate); auto.
 Qed.
 
 Lemma usable_reflect n : usable_b n = true <-> usable n.
 Proof.
-  unfold usable_b, usable. destruct n as [p r st del]; simpl. destruct r, st, del; simpl; split; intros H;
-    try discriminate; try (destruct H as (A & B & C); discriminate); auto.
+  unfold usable_b, usable. destruct n as [p r st del mg]; simpl. destruct r, st, del, mg; simpl; split; intros H;
+    try discriminate; try (destruct H as (A & B & C & D); discriminate); auto.
 Qed.
 
 (* Whatever the outcomes: the pool that gets the pod is one whose Ready condition is True (not False, Unknown
